@@ -1583,7 +1583,7 @@ def protect_value(value):
     return "'%s'" % value.replace("'", "''")
 
 
-valid_cql3_word_re = re.compile(r'^[a-z][0-9a-z_]*$')
+valid_cql3_word_re = re.compile(r'^[a-z][0-9a-z_]*\Z')
 
 
 def is_valid_name(name):
